@@ -563,6 +563,44 @@ def r16_13(run, model):
                    "(which package wins is decided by link order)")
 
 
+def r16_14(run, model):
+    run.rule("R16.14", "an import cycle is named in the separate pipeline too: check_package and build_package refuse a dependency whose "
+                       "interface was built against the package being compiled (its `deps` name it), and link_cores orders the packages - "
+                       "which reports a cycle - before it compares pinned hashes (the hash of each member of a cycle covers the others': "
+                       "the comparison alone answers `rebuild A`, `rebuild B`, `rebuild A` for ever)")
+    helpers = {}
+    for g in model.fns(SEP):
+        if g.body is None:
+            continue
+        t = S.norm_ws(run.facts.text(SEP, g.body["sp"]))
+        if re.search(r"\.deps\.(contains_key|get)\(", t) and "Err(" in t and re.search(r"cycle", t):
+            helpers[g.name] = g
+    for name in ("check_package", "build_package"):
+        f = model.fn(name, SEP)
+        loops = [l for l in S.find(f.body, "For") if any(True for _ in S.calls(l["body"], "load_interface_from_paths"))]
+        if len(loops) != 1:
+            raise AnalysisIncomplete(f"{name}: the loop that loads dependency interfaces was not found")
+        body = loops[0]["body"]
+        t = S.norm_ws(run.facts.text(SEP, body["sp"]))
+        direct = re.search(r"\.deps\.(contains_key|get)\(&?opts\.package", t) is not None and "Err(" in t
+        via = [c for c in S.walk(body) if c["k"] == "Call" and S.callee_name(c) in helpers and "opts" in S.idents(c)]
+        propagated = any(p_ is not None and p_["k"] == "Try" for p_ in [S.Parents(body).parent(c) for c in via])
+        run.ob("R16.14", f"{name}|a dependency built against this package is refused", direct or (bool(via) and propagated), site(SEP, loops[0]["sp"]),
+               "the loaded interface's deps are tested for the package being compiled" if direct or via else
+               "only `dep == opts.package` is tested: a stale interface of the other package lets every member of a cycle pass",
+               witness="A imports B, B imports A (a stale B.interface on the path): check A, build A, build B all exit 0; link answers "
+                       "`rebuild A`, then `rebuild B`, ... while whole-program compilation says `package dependency cycle detected`")
+    f = model.fn("link_cores", SEP)
+    topo = [c for c in S.walk(f.body) if c["k"] == "Call" and S.callee_name(c) in ("topo_sort", "topo_sort_packages")]
+    cmpv = [b for b in S.walk(f.body) if b["k"] == "Binary" and b["op"] in ("!=", "Ne", "==", "Eq") and "interface_hash" in S.norm_ws(run.facts.text(SEP, b["sp"]))]
+    if not topo or not cmpv:
+        raise AnalysisIncomplete("link_cores: ordering call or hash comparison not found")
+    ok = min((c["sp"][0], c["sp"][1]) for c in topo) < min((c["sp"][0], c["sp"][1]) for c in cmpv)
+    run.ob("R16.14", "link_cores|packages are ordered (cycles reported) before pinned hashes are compared", ok, site(SEP, topo[0]["sp"]),
+           f"ordering at line {topo[0]['sp'][0]}, first hash comparison at line {cmpv[0]['sp'][0]}",
+           witness="link of a cyclic pair: `package A expects interface_hash .. for B (rebuild A)` instead of the cycle")
+
+
 def run(run, model):
     mir = Mir(run.facts)
     run.try_rule(r16_1, model, mir)
@@ -577,6 +615,7 @@ def run(run, model):
     run.try_rule(r16_11, model)
     run.try_rule(r16_12, model)
     run.try_rule(r16_13, model)
+    run.try_rule(r16_14, model)
     # a stale dependant names items its dependency no longer exports: the pinned-hash comparison is how link reports that (shared with C15 R15.4)
     from rules import c15 as _c15
     run.try_rule(_c15.r15_4, model)
